@@ -344,6 +344,7 @@ func run(c *rig.Ctx) {
 	})
 
 	waveWrites(c)
+	veryLong(c)
 
 	// (3) no outputs attached: the same schedules must run and deliver nothing
 	c.Part("nil", c.N(8, 64), func(i int64, r *rig.Rng) {
